@@ -81,7 +81,7 @@ def pLabeledStatement (self : Self) : P Val := do
     let _ ← expect "COLON"
     let stmt ← labelBody self defTok
     pure (mk .Default (some (← tokCoord defTok)) [.list [stmt]])
-  else parseError "Invalid labeled statement" (← lexFileLoc)
+  else parseError "Invalid labeled statement" (← hereLoc)
 
 /-- `_parse_selection_statement` -/
 def pSelectionStatement (self : Self) : P Val := do
@@ -180,7 +180,7 @@ def pPragmaDirective (self : Self) : P Val := do
     let lit ← self .unifiedString
     let _ ← expect "RPAREN"
     pure (mk .Pragma (some (← tokCoord lp)) [lit])
-  else parseError "Invalid pragma" (← lexFileLoc)
+  else parseError "Invalid pragma" (← hereLoc)
 
 def pPragmaListLoop (self : Self) (acc : List Val) : P (List Val) := do
   if inSet (← peekType) ["PPPRAGMA", "_PRAGMA"] then
